@@ -77,6 +77,60 @@ CLAIMS = {
     design_ref="DESIGN.md §5 C20, §3.3",
     note="Sampling over the random bits of from_ip; the oracle's faithfulness to BEP42 rests on the published vectors.",
     technique="executable TLA+ oracle evaluated by TLC on recorded outputs of the real function"),
+ "C05": dict(
+    category="model_checking",
+    text="spec/Server.tla (one operator per query kind composing routing table, token store and peer store) is checked by TLC "
+         "against the reply rules of C05 (exactly one reply, to the source, id echoed, shape per method, 203/202, read-only silent) "
+         "over every interleaving of queries, non-queries and time for a small node; real serving / read-only nodes (IPv4 and IPv6) "
+         "on the simulated network then receive seeded queries of every kind / want / port / token / transaction-id combination "
+         "interleaved with responses, errors and garbage, and TLC checks EVERY handler step of the recording against the same rules "
+         "(spec/trace/NodeTrace.tla), including that a query is never swallowed by a pending bootstrap exchange.",
+    design_ref="DESIGN.md §5 C05, §3.8",
+    note="Bounded MC (4/5 events). The recording relies on hook H3 (step brackets) to attribute sends to the datagram that caused "
+         "them, and on the harness' independent bencode reader.",
+    technique="TLA+ spec + TLC model checking; TLC trace validation of recorded executions of real nodes"),
+ "C12": dict(
+    category="model_checking",
+    text="Frame conditions of C12 (a query never admits its sender; a response whose transaction id the node never used changes no "
+         "contacts; nobody is reported good unless it answered or queried within 15 min; router / own id never admitted) are checked by "
+         "TLC in MC_Server and MC_Table at design level and, on recordings of real nodes, after every handler step by comparing the "
+         "table dumped before and after (spec/trace/NodeTrace.tla).",
+    design_ref="DESIGN.md §5 C12",
+    note="'a prefix the node never used' is read off the wire (prefixes of the queries the node has sent). Responses forged against a "
+         "RUNNING search are exercised by the lookup scenarios.",
+    technique="TLA+ spec + TLC model checking; TLC trace validation of recorded executions of real nodes"),
+ "C13": dict(
+    category="model_checking",
+    text="spec/Wire.tla is an executable TLA+ transcription of the BEP3/5/32 encoding (pinned to the BEP5 examples). TLC enumerates "
+         "the message space over adversarial field domains (mc/MC_Wire.tla, 1516 messages) and every one is built with the real types, "
+         "encoded by the real encoder and compared byte for byte with Wire!Encode by TLC; seeded random messages over the whole field "
+         "space are checked the same way; every message is also decoded from its canonical, key-permuted and unknown-key encodings and "
+         "the result compared with the original; ill-formed variants (argument/method mismatch, 19/21-byte ids, ragged node lists) "
+         "must be rejected.",
+    design_ref="DESIGN.md §5 C13, §3.2",
+    note="Agreement with an executable oracle on the cases explored; an input-space property of a codec is not something model "
+         "checking proves. The variants are produced by the harness' own bencode writer (trusted transport).",
+    technique="executable TLA+ wire specification; TLC-enumerated and random messages through the real codec; TLC trace validation"),
+ "C14": dict(
+    category="fault_enumeration",
+    text="Supervised execution of a structure-aware mutation corpus (truncation at every offset, every length prefix x 23 magnitudes "
+         "up to 2^128, integers at the limits, wrong types in every tree position, nesting to the full datagram length, random "
+         "flips/splices) through the real decoder on a 2 MiB stack under a counting allocator, and through a real serving node whose "
+         "recording is validated by TLC (it must keep answering queries and complete every API call).",
+    design_ref="DESIGN.md §5 C14",
+    note="Memory safety / resource use cannot be established by a TLA+ model: fault enumeration, not proof. The TLA+ part is the "
+         "node-level trace specification and the expected 'no reply to garbage' rule.",
+    technique="spec-guided fault enumeration with a supervised decode worker; TLC trace validation of a flooded real node"),
+ "C17": dict(
+    category="model_checking",
+    text="The size model of spec/Wire.tla (pinned to Wire!Encode by ASSUME) is evaluated by TLC for every reply shape (0..500 values "
+         "of either family x 0..8 nodes per family x transaction ids up to 32 bytes) and every query shape: the only datagrams that "
+         "can exceed 1500 bytes are get_peers replies that are too long because of `values` (the recorded finding; thresholds 148/175 "
+         "IPv4 and 51 IPv6 peers are printed). On recordings of real nodes TLC checks the length of EVERY datagram sent; the known "
+         "class is reported as KNOWN-FINDING, anything else is a violation.",
+    design_ref="DESIGN.md §5 C17, §6",
+    note="The finding is recorded, not repaired (capping `values` contradicts C07).",
+    technique="TLA+ size model evaluated by TLC; TLC trace validation of every datagram sent by real nodes"),
 }
 
 def main():
